@@ -47,6 +47,15 @@ func TestVerifC09(t *testing.T) {
 		}
 		alloc.totalPages = total
 		callers, iters, seed := int(cur.Next()), int(cur.Next()), int64(cur.Next())
+		// capMode (odd seeds): every caller holds at most capHold frames with callers*capHold < total, so the HIGHEST
+		// managed frame is never allocated (allocation is lowest-first) and freeing it is a double free every time:
+		// the error paths of FreeFrame are then taken constantly under contention
+		capHold := 0
+		if seed%2 == 1 && int(total) > callers+1 {
+			capHold = (int(total) - 1) / callers
+		}
+		neverAllocated := mm.Frame(ranges[len(ranges)-1].start + ranges[len(ranges)-1].n - 1)
+		var doubleFreeAccepted int64
 		_ = unsafe.Sizeof(alloc)
 
 		index := func(f mm.Frame) int { // position of a frame in the ownership table, -1 if unmanaged
@@ -73,7 +82,12 @@ func TestVerifC09(t *testing.T) {
 				r := rand.New(rand.NewSource(seed*977 + int64(w)))
 				var mine []mm.Frame
 				for i := 0; i < iters; i++ {
-					if len(mine) == 0 || r.Intn(100) < 55 {
+					if capHold > 0 && r.Intn(3) == 0 {
+						if err := alloc.FreeFrame(neverAllocated); err == nil {
+							atomic.AddInt64(&doubleFreeAccepted, 1)
+						}
+					}
+					if (len(mine) == 0 || r.Intn(100) < 55) && (capHold == 0 || len(mine) < capHold) {
 						f, err := alloc.AllocFrame()
 						if err != nil {
 							continue
@@ -170,6 +184,9 @@ func TestVerifC09(t *testing.T) {
 		}
 		if got != int(total)-stillHeld {
 			out.Mon(c.id, "c09:lost-frame", "after quiescence %d frames could be allocated, expected %d (total %d, held %d): freed frames were lost", got, int(total)-stillHeld, total, stillHeld)
+		}
+		if doubleFreeAccepted != 0 {
+			out.Mon(c.id, "c09:double-free-accepted", "%d frees of a frame that was never allocated were accepted", doubleFreeAccepted)
 		}
 		if lostFree != 0 {
 			out.Mon(c.id, "c09:bad-free-accepted", "%d frees of an unmanaged frame were accepted", lostFree)
